@@ -1,13 +1,20 @@
 #!/usr/bin/env python3
-"""Regenerates /verif/MANIFEST.json from tools/claims.json (one entry per claimed property)."""
-import json, os
+"""Regenerates /verif/MANIFEST.json from the checker's own rule registry (klogsa -describe)
+and tools/claims.json (technique per property; reason for properties not claimed)."""
+import json, os, subprocess
 HERE = os.path.dirname(os.path.dirname(os.path.abspath(__file__)))
 props = [json.loads(l) for l in open(os.path.join(HERE, "properties.jsonl"))]
 claims = json.load(open(os.path.join(HERE, "tools", "claims.json")))
+reg = {d["ID"]: d for d in json.loads(subprocess.check_output([os.path.join(HERE, "bin", "klogsa"), "-describe"]))}
 checks, na = [], []
 for p in props:
-    c = claims.get(p["id"])
-    if c and c.get("claimed"):
+    c = claims.get(p["id"], {})
+    d = reg.get(p["id"])
+    if d and c.get("claimed", True) and not c.get("reason"):
+        text, _, notcov = d["Explain"].partition("Not covered:")
+        note = "Trusted: " + "; ".join(d["Trusted"] or ["go/ssa construction and dominator tree, go/types"]) + ". Not covered (left to dynamic techniques): " + (notcov.strip() or "-")
+        if d["Level"] == "other":
+            text = "Static analysis decides structural necessary conditions of the property for all inputs at once, not the behaviour itself. " + text.strip()
         checks.append({
             "property_id": p["id"],
             "quick_cmd": "./check %s quick" % p["id"],
@@ -15,12 +22,12 @@ for p in props:
             "evidence_file": "/verif/evidence/%s.json" % p["id"],
             "replay_cmd_template": "./check --replay {path}",
             "engine": "klogsa",
-            "level_claimed": {"category": c["level"], "text": c["text"], "design_ref": c.get("design_ref", "DESIGN.md section 4, " + p["id"])},
-            "level_note": c["note"],
-            "technique": c["technique"],
+            "level_claimed": {"category": d["Level"], "text": text.strip(), "design_ref": "DESIGN.md section 4, " + p["id"]},
+            "level_note": note,
+            "technique": c.get("technique", "static analysis over go/ssa: dominance guards, value provenance, call-graph reachability"),
         })
     else:
-        na.append({"property_id": p["id"], "reason": (c or {}).get("reason", "check not implemented yet (build in progress; see DESIGN.md section 4)")})
+        na.append({"property_id": p["id"], "reason": c.get("reason", "check not implemented yet (build in progress; see DESIGN.md section 4)")})
 m = {
     "version": 1,
     "setup_cmd": "./setup.sh",
